@@ -106,6 +106,7 @@ impl Prop for NoAlloc {
                 let mut slot_max: Vec<usize> = Vec::new();
                 let mut lines_now: Vec<usize> = Vec::with_capacity(4096);
                 let mut max_recs = 0usize;
+                let mut max_total_lines = 0usize;
                 let mut set_cap: Option<usize> = None;
                 let mut i = 0usize;
                 let mut call = 0usize;
@@ -149,7 +150,12 @@ impl Prop for NoAlloc {
                         sink += s;
                         let k = set.len();
                         ensure!(lines_now.len() == k && k >= 1, "harness/c18", "harness: line bookkeeping overflow or empty batch");
-                        let mut dominated = k <= max_recs;
+                        // dominated = the batch is no larger than earlier batches in every respect an implementation may
+                        // key its reusable storage on: number of records, lines per slot (one vector per record, as the
+                        // pinned code does) and total number of lines (one flat vector per set)
+                        let total_lines: usize = lines_now.iter().sum();
+                        let mut dominated = k <= max_recs && total_lines <= max_total_lines;
+                        max_total_lines = max_total_lines.max(total_lines);
                         for (j, n) in lines_now.iter().enumerate() {
                             if j >= slot_max.len() {
                                 slot_max.push(0);
@@ -338,7 +344,7 @@ impl Prop for NoAlloc {
     }
 }
 
-pub const RULE: &str = "cases = (format, 100..1500 records of uniform or mildly varying shape, LF/CRLF, capacity = (largest extent + 1) x factor 1..5 + slack, chunk script, mode next() / one reused RecordSet / a generated mixture of both on one reader; optionally a few seeks back to earlier records in the second half; FASTQ optionally with different terminators on sequence and quality line). Every call after a warm-up of max(8 records, 2 buffer capacities) whose observable shape is dominated by what the same reader / set already handled (lines per record, records per set, lines per slot) is measured with a counting global allocator (thread-local window around the call and the accessors head/seq/qual/seq_lines): it must perform 0 allocations; the record-set buffer capacity and the reader capacity (policy never asked) stay unchanged. Non-dominated calls are skipped and counted. Non-trivial = >= 20 measured dominated calls in the case. Distinct = hash(case).";
+pub const RULE: &str = "cases = (format, 100..1500 records of uniform or mildly varying shape, LF/CRLF, capacity = (largest extent + 1) x factor 1..5 + slack, chunk script, mode next() / one reused RecordSet / a generated mixture of both on one reader; optionally a few seeks back to earlier records in the second half; FASTQ optionally with different terminators on sequence and quality line). Every call after a warm-up of max(8 records, 2 buffer capacities) whose observable shape is dominated by what the same reader / set already handled (lines per record, records per set, lines per slot, total lines per set) is measured with a counting global allocator (thread-local window around the call and the accessors head/seq/qual/seq_lines): it must perform 0 allocations; the record-set buffer capacity and the reader capacity (policy never asked) stay unchanged. Non-dominated calls are skipped and counted. Non-trivial = >= 20 measured dominated calls in the case. Distinct = hash(case).";
 
 pub fn run(tier: Tier) -> i32 {
     let mut run = Run::new("C18", tier, "exploration");
